@@ -32,6 +32,12 @@ Proof.
   unfold is_none, end_ok, end_of. destruct (strip_paren a); intros H0 ee H; first [discriminate H0 | discriminate H].
 Qed.
 
+Lemma is_var_not_none a : is_var a = true -> is_none a = false.
+Proof. unfold is_var, tag_of, is_none. destruct (strip_paren a); try reflexivity. discriminate. Qed.
+
+Lemma is_call_not_none a : is_call a = true -> is_none a = false.
+Proof. unfold is_call, tag_of, is_none. destruct (strip_paren a); try reflexivity. discriminate. Qed.
+
 Definition fence_wf (mx : option Z) : Prop :=
   match mx with Some f => f <= len /\ nl_or_end ts f | None => True end.
 
@@ -114,15 +120,20 @@ with wfl_tac :=
 
 Ltac end_tac :=
   let ee := fresh in let H := fresh in
-  first [ apply is_none_end_ok; first [ assumption | apply negb_false_iff; assumption ]
+  first [ assumption
+        | apply is_none_end_ok; first [ assumption | apply negb_false_iff; assumption ]
         | intros ee H; first [ cbn [end_of strip_paren] in H; injection H as <-; reflexivity | discriminate H ] ].
 
 (* turn "not None -> progress" facts into plain inequalities where the result is known not to be None *)
 Ltac prog_facts :=
   repeat match goal with
+         | H : true = false -> _ |- _ => clear H
+         | H : false = true -> _ |- _ => clear H
+         | H : false = false -> _ |- _ => specialize (H eq_refl)
          | E : is_none ?a = false, Hn : is_none ?a = false -> _ |- _ => specialize (Hn E)
          | E : negb (is_none ?a) = true, Hn : is_none ?a = false -> _ |- _ =>
              let E' := fresh in pose proof (proj1 (negb_true_iff _) E) as E'; specialize (Hn E')
+         | H : _ = _ /\ _ < _ |- _ => destruct H
          end.
 
 Ltac side :=
@@ -150,6 +161,10 @@ Ltac call_known := fail "no specification for this call".
 (* a dropped None result is literally None and left the cursor alone *)
 Ltac none_facts :=
   repeat match goal with
+         | H : true = false -> _ |- _ => clear H
+         | H : false = true -> _ |- _ => clear H
+         | H : ?x = ?x -> ?a = PNone /\ ?q = _ |- _ => is_var a; is_var q; destruct (H eq_refl) as [-> ->]; clear H
+         | H : ?x = ?x -> ?a = PNone |- _ => is_var a; rewrite (H eq_refl) in *; clear H
          | E : negb (is_none ?a) = false, Hn : is_none ?a = true -> _ /\ _ |- _ =>
              let E' := fresh in pose proof (proj1 (negb_false_iff _) E) as E'; destruct (Hn E') as [-> ->]; clear Hn
          | E : is_none ?a = true, Hn : is_none ?a = true -> _ /\ _ |- _ =>
@@ -220,6 +235,8 @@ Ltac none_goal :=
         | reflexivity
         | match goal with E : negb (is_none ?a) = true |- _ => rewrite H in E; discriminate E end
         | match goal with E : negb (is_none ?a) = false |- _ => rewrite H in E; discriminate E end
+        | match goal with E : is_var ?a = true |- _ => rewrite (is_var_not_none _ E) in H; discriminate H end
+        | match goal with E : is_call ?a = true |- _ => rewrite (is_call_not_none _ E) in H; discriminate H end
         | match goal with E : is_none ?a = false |- _ => rewrite H in E; discriminate E end
         | match goal with Hn : is_none ?a = true -> _ |- _ => destruct (Hn H); split; [assumption | lia] end
         | match goal with |- context [opt_tok ?n] => destruct n as [[? ?]|]; [discriminate H | split; [reflexivity | lia]] end ].
@@ -238,8 +255,9 @@ Ltac done_tac :=
          | |- wfl _ _ => wfl_tac
          | |- end_ok _ _ => end_tac
          | |- is_none _ = true -> _ => none_goal
-         | |- is_none _ = false -> _ < _ => first [ intros _; prog_facts; lia | none_goal ]
-         | |- is_none _ = false -> _ /\ _ => first [ intros _; prog_facts; split; [leaves_tac | lia] | none_goal ]
+         | |- is_none _ = false -> _ < _ => first [ let H := fresh in intros H; prog_facts; lia | none_goal ]
+         | |- is_none _ = false -> _ /\ _ =>
+             first [ let H := fresh in intros H; prog_facts; split; [leaves_tac | lia] | none_goal ]
          end.
 
 Ltac wp := repeat wprim; try done_tac.
@@ -328,6 +346,37 @@ Lemma exp_term_spec p mx : G' p -> pre p mx -> wpx (exp_term_def ts unops R) (po
 Proof. start. unfold exp_term_def. wp. Qed.
 Ltac ck16 := first [ck15 | call exp_term_spec].
 Ltac call_known ::= ck16.
+
+Lemma binop_spec first p mx : G' p -> pre p mx -> wf p first -> end_ok first p ->
+  wpx (binop_def ts binops unops R first) (postFE first p mx) p mx.
+Proof. start. intros Hwf Hend. unfold binop_def. wp. Qed.
+Ltac ck17 := first [ck16 | call binop_spec].
+Ltac call_known ::= ck17.
+
+Lemma exp_spec p mx : G' p -> pre p mx -> wpx (exp_def ts binops unops R) (postE p mx) p mx.
+Proof. start. unfold exp_def. wp. Qed.
+Ltac ck18 := first [ck17 | call exp_spec].
+Ltac call_known ::= ck18.
+
+Lemma var_spec p mx : G' p -> pre p mx -> wpx (var_def ts R) (postV p mx) p mx.
+Proof. start. unfold var_def. wp. Qed.
+Ltac ck19 := first [ck18 | call var_spec].
+Ltac call_known ::= ck19.
+
+Lemma varlist_loop_spec p mx : G' p -> pre p mx -> wpx (varlist_loop_def ts R) (postL p mx) p mx.
+Proof. start. unfold varlist_loop_def. wp. Qed.
+Ltac ck20 := first [ck19 | call varlist_loop_spec].
+Ltac call_known ::= ck20.
+
+Lemma varlist_spec p mx : G' p -> pre p mx -> wpx (varlist_def ts R) (postV p mx) p mx.
+Proof. start. unfold varlist_def. wp. Qed.
+Ltac ck21 := first [ck20 | call varlist_spec].
+Ltac call_known ::= ck21.
+
+Lemma functioncall_spec p mx : G' p -> pre p mx -> wpx (functioncall_def ts R) (postN p mx) p mx.
+Proof. start. unfold functioncall_def. wp. Qed.
+Ltac ck22 := first [ck21 | call functioncall_spec].
+Ltac call_known ::= ck22.
 
 End Step.
 End S.
